@@ -427,6 +427,9 @@ func runCase(c Case) []ev.Violation {
 	}
 	if trippedThenDetermined {
 		rec.NT(fmt.Sprintf("%+v|%s", c.P, c.Ops))
+		if len(c.Ops) >= 5 {
+			rec.Sample(map[string]any{"params": c.P, "ops": c.Ops, "trace": trace})
+		}
 	}
 	// liveness suffix: once the endpoint works again (every admitted probe succeeds), the breaker closes
 	// "the protected endpoint works again": probes still pending report success first
